@@ -35,6 +35,10 @@ type c16Case struct {
 	// curve (same parameters, different interface value), as keys from a provider
 	// or a test double do. Signing only: NewVerifier refuses such keys (crypto/ecdh).
 	Wrapped bool `json:"wrapped,omitempty"`
+	// DERForm (stub-sign): what the opaque key returns around (r, s) - 0 SEQUENCE{r, s}; 1 SEQUENCE{r, s, 1} (a
+	// recovery id behind s); 2 SEQUENCE{r, s} followed by three stray bytes; 3 SEQUENCE{r, s, OCTET STRING}. For 1-3
+	// the conversion may fail; if it succeeds the result is the fixed-width form of (r, s) all the same
+	DERForm int `json:"der_form,omitempty"`
 }
 
 // wrappedCurve has the parameters and arithmetic of the curve it embeds but is not
@@ -110,6 +114,23 @@ func checkC16(c c16Case) error {
 	case "stub-sign":
 		r, s := new(big.Int).SetBytes(c.R), new(big.Int).SetBytes(c.S)
 		der, _ := asn1.Marshal(struct{ R, S *big.Int }{r, s})
+		switch c.DERForm {
+		case 1:
+			der, _ = asn1.Marshal(struct {
+				R, S *big.Int
+				V    int
+			}{r, s, 1})
+		case 2:
+			der = append(der, 0x02, 0x01, 0x01)
+		case 3:
+			der, _ = asn1.Marshal(struct {
+				R, S *big.Int
+				X    []byte
+			}{r, s, []byte{1, 2, 3, 4}})
+		}
+		if c.DERForm != 0 && s.BitLen() <= 8*n {
+			stats.Class(fmt.Sprintf("stub/der-form=%d/s-zeros=%s", c.DERForm, rsClass(n, s)))
+		}
 		stub := &bridge.StubCryptoSigner{Pub: &priv.PublicKey, SignFn: func(io.Reader, []byte, crypto.SignerOpts) ([]byte, error) { return der, nil }}
 		sg, err := cose.NewSigner(alg, stub)
 		if err != nil {
@@ -137,6 +158,10 @@ func checkC16(c c16Case) error {
 				if errs[i] == nil || len(o) != 0 {
 					return finding("oversized-integer-accepted", "r or s wider than the curve order was converted (err=%v, out=%x)", errs[i], o)
 				}
+				continue
+			}
+			if errs[i] != nil && c.DERForm != 0 && len(o) == 0 {
+				stats.Class("stub/odd-der-refused")
 				continue
 			}
 			if errs[i] != nil {
@@ -522,6 +547,9 @@ func genC16Case(t *rapid.T) c16Case {
 					break
 				}
 			}
+		}
+		if rapid.IntRange(0, 3).Draw(t, "odd-der") == 0 {
+			c.DERForm = rapid.IntRange(1, 3).Draw(t, "der-form")
 		}
 		if rapid.IntRange(0, 19).Draw(t, "oversized") == 0 {
 			big := make([]byte, (order.BitLen()+7)/8+1)
